@@ -96,6 +96,8 @@ def classify(a, b):
 
 
 def spec_fields(spec):
+    if spec == "timeout":
+        return "fuel", "", ""
     f = {}
     for x in spec.split("|"):
         if x.startswith("END:"):
@@ -175,6 +177,9 @@ def run(prop, tier, seed):
     propfail, corr = [], []
     for (tag, prog, stdin), a, b, c in zip(cases, l0, l1, l2):
         hist[tag if tag in ("random", "scripted", "branch", "bigarith") else "template"] += 1
+        if C.timed_out(a, b, c):
+            hist["evaluator-timeout-skipped"] += 1
+            continue
         nsteps = a.count(";;")
         hist["steps"] += nsteps
         end = a.rsplit("END:", 1)[-1] if "END:" in a else "?"
